@@ -49,6 +49,9 @@ def cases():
         yield ['e_machine', 0, v]
     for v in keys(ed._DESCR_EI_OSABI, ee.ENUM_EI_OSABI):
         yield ['osabi', 0, v]
+    # ARM EABI version 5 flag words: every combination of the flag bits both programs name (LE8, BE8, soft float, hard float)
+    for bits in range(16):
+        yield ['e_flags_arm5', 40, 0x05000000 | (0x00400000 if bits & 1 else 0) | (0x00800000 if bits & 2 else 0) | (0x200 if bits & 4 else 0) | (0x400 if bits & 8 else 0)]
     for v in keys(ed._DESCR_E_TYPE, ee.ENUM_E_TYPE):
         yield ['e_type', 0, v]
     for mname, tab in (('x64', ee.ENUM_SH_TYPE_AMD64), ('ARM', ee.ENUM_SH_TYPE_ARM), ('AARCH64', ee.ENUM_SH_TYPE_AARCH64), ('MIPS', ee.ENUM_SH_TYPE_MIPS),
@@ -151,6 +154,11 @@ def build(desc):
         img.add_shstrtab()
         return img.encode(), '-h', []
     cls = 64 if m not in (40, 3, 20) and table != 'DW_OP' or (table == 'DW_OP' and m == 62) else 32
+    if table == 'e_flags_arm5':
+        img = base_image(32, le, machine=40)
+        img.flags = v
+        img.add_shstrtab()
+        return img.encode(), '-h', []
     if table in ('sh_type', 'sh_flags'):
         img = base_image(cls, le, machine=m)
         if table == 'sh_type':
